@@ -27,7 +27,8 @@ Inductive spart :=
 | PClass (v : str)                   (* .v  *)
 | PSet (l : list sattr).             (* [a1 a2 ... an], single spaces between *)
 
-Record selem := mkSElem { se_name : str; se_parts : list spart }.
+(* an element: name, parts, and optionally a text `{T}` written last *)
+Record selem := mkSElem { se_name : str; se_parts : list spart; se_text : option str }.
 
 (* ---------------------------------------------------------------- rendering to text *)
 Definition qchar (single : bool) : char := if single then c_squote else c_dquote.
@@ -59,7 +60,9 @@ Definition part_text (p : spart) : str :=
   end.
 Fixpoint parts_text (ps : list spart) : str :=
   match ps with [] => [] | p :: ps' => part_text p ++ parts_text ps' end.
-Definition elem_text (e : selem) : str := se_name e ++ parts_text (se_parts e).
+Definition tail_text (t : option str) : str :=
+  match t with None => [] | Some T => c_lbrace :: T ++ [c_rbrace] end.
+Definition elem_text (e : selem) : str := se_name e ++ parts_text (se_parts e) ++ tail_text (se_text e).
 
 (* ---------------------------------------------------------------- alphabets *)
 (* characters that end an unquoted run inside [ ]: `=`, white space, quotes, brackets *)
@@ -106,7 +109,9 @@ Definition spart_ok (p : spart) : Prop :=
   | PId v | PClass v => word_ok v
   | PSet l => Forall sattr_ok l
   end.
-Definition selem_ok (e : selem) : Prop := word_ok (se_name e) /\ Forall spart_ok (se_parts e).
+Definition selem_ok (e : selem) : Prop :=
+  word_ok (se_name e) /\ Forall spart_ok (se_parts e) /\
+  match se_text e with None => True | Some T => bal 0 T = true end.
 
 (* ================================================================ expected token layout *)
 Definition tk1 (k : tkind) (pos : nat) : token := mkTok k pos (pos + 1).
@@ -168,8 +173,14 @@ Fixpoint parts_toks (pos : nat) (ps : list spart) : list token :=
   | [] => []
   | p :: ps' => part_toks pos p ++ parts_toks (pos + length (part_text p)) ps'
   end.
+Definition tail_toks (pos : nat) (t : option str) : list token :=
+  match t with
+  | None => []
+  | Some T => tk1 (TBracket true BExpr) pos :: text_tokens (pos + 1) T ++ [tk1 (TBracket false BExpr) (pos + 1 + length T)]
+  end.
 Definition elem_toks (pos : nat) (e : selem) : list token :=
-  word_tok pos (se_name e) :: parts_toks (pos + length (se_name e)) (se_parts e).
+  word_tok pos (se_name e) :: parts_toks (pos + length (se_name e)) (se_parts e)
+  ++ tail_toks (pos + length (se_name e) + length (parts_text (se_parts e))) (se_text e).
 
 (* ================================================================ segments *)
 Definition seg (ctx : tctx) (s : str) (ts : nat -> list token) (ctx' : tctx) (P : str -> Prop) : Prop :=
@@ -852,12 +863,54 @@ Proof.
     intros rest. apply parts_text_wstop.
 Qed.
 
+(* `{` ... `}` at element level *)
+Lemma wstop_lbrace r : wstop (c_lbrace :: r). Proof. wstop_const. Qed.
+
+Lemma seg_lbrace0 g :
+  seg (C0 g) [c_lbrace] (fun pos => [tk1 (TBracket true BExpr) pos]) (mkCtx g 0 1 None) (fun _ => True).
+Proof.
+  apply (seg_token (C0 g) c_lbrace [] (TBracket true BExpr) (mkCtx g 0 1 None)).
+  intros prev rest _. cbn [app].
+  rewrite (consume_bracket (C0 g) prev c_lbrace rest BExpr); try reflexivity.
+  eexists. apply lit_stop0. apply wstop_lbrace.
+Qed.
+Lemma seg_rbrace0 g :
+  seg (mkCtx g 0 1 None) [c_rbrace] (fun pos => [tk1 (TBracket false BExpr) pos]) (C0 g) (fun _ => True).
+Proof.
+  apply (seg_token (mkCtx g 0 1 None) c_rbrace [] (TBracket false BExpr) (C0 g)).
+  intros prev rest _. cbn [app].
+  rewrite (consume_bracket (mkCtx g 0 1 None) prev c_rbrace rest BExpr); try reflexivity.
+  eexists. apply lit_stops_at_rbrace.
+Qed.
+Lemma seg_expr0 g T :
+  bal 0 T = true -> seg (mkCtx g 0 1 None) T (fun pos => text_tokens pos T) (mkCtx g 0 1 None) (starts_with_c c_rbrace).
+Proof. intros Hb prev pos rest [r ->]. apply toks_text. exact Hb. Qed.
+
+Lemma seg_tail g t :
+  match t with None => True | Some T => bal 0 T = true end ->
+  seg (C0 g) (tail_text t) (fun pos => tail_toks pos t) (C0 g) wstop.
+Proof.
+  destruct t as [T|]; cbn [tail_text tail_toks]; intros Hb; [|apply seg_nil].
+  apply (seg_weaken _ _ _ _ (fun _ => True)); [auto|].
+  change (c_lbrace :: T ++ [c_rbrace]) with ([c_lbrace] ++ (T ++ [c_rbrace])).
+  eapply seg_app'; [apply seg_lbrace0| |(intros; exact I)|].
+  - eapply seg_app'; [apply seg_expr0; exact Hb|apply seg_rbrace0| |intros pos; reflexivity].
+    intros rest _. eexists. reflexivity.
+  - intros pos. reflexivity.
+Qed.
+
+Lemma tail_text_wstop t rest : wstop rest -> wstop (tail_text t ++ rest).
+Proof. destruct t; cbn [tail_text app]; [intros _; apply wstop_lbrace|auto]. Qed.
+
 Theorem seg_elem g e :
   selem_ok e -> seg (C0 g) (elem_text e) (fun pos => elem_toks pos e) (C0 g) wstop.
 Proof.
-  intros [Hn Hp]. unfold elem_text.
-  eapply seg_app'; [apply seg_word0; exact Hn|apply seg_parts; exact Hp| |intros pos; reflexivity].
-  intros rest. apply parts_text_wstop.
+  intros [Hn [Hp Ht]]. unfold elem_text.
+  eapply seg_app'; [apply seg_word0; exact Hn| | |].
+  - eapply seg_app'; [apply seg_parts; exact Hp|apply seg_tail; exact Ht| |intros pos; reflexivity].
+    intros rest. apply tail_text_wstop.
+  - intros rest Hr. rewrite <- app_assoc. apply parts_text_wstop. apply tail_text_wstop. exact Hr.
+  - intros pos. unfold elem_toks. cbn [app]. reflexivity.
 Qed.
 
 (* the tokenizer on the text of an element *)
